@@ -189,7 +189,11 @@ def h_make_functions(ctx):
     elif form == 'keys':
         arg = dict.fromkeys(arg).keys()
     before = None if form == 'iter' else list(arg)
-    fs = ctx.call(mf, r, arg, bdd, label='make_functions')
+    # a loud refusal (TypeError / ValueError) of the less usual containers is not a
+    # wrong result; a returned result is held to the contract whatever the container
+    exotic = form in ('iter', 'keys')
+    fs = ctx.call(mf, r, arg, bdd, label='make_functions',
+                  allowed=(lambda e: isinstance(e, (TypeError, ValueError))) if exotic else None)
     if before is not None:
         w.oblige(f'make_functions.frame: the caller\'s collection of outputs ({form}) is left as it was',
                  z3.BoolVal(list(arg) == before and len(arg) == len(before)))
